@@ -147,6 +147,12 @@ def synthetic_zones():
     out.append(Zone('syn/twin-types-std-footer', T.write(z, indicators=True), 'synthetic'))
     z = T.TZif(2, [-1830383032, 1514768400, 1546304400], [3, 2, 1], [(1616, False, 0), (0, False, 4), (3600, False, 8), (0, False, 4)], b'LMT\0GMT\0WAT\0', b'GMT0')
     out.append(Zone('syn/twin-types-std-footer-first', T.write(z), 'synthetic'))
+    # a last transition a few seconds after the epoch whose offset has a larger seconds part (the civil second shown at
+    # the transition has a seconds field beyond the transition's own unix time)
+    z = T.TZif(2, [10], [1], [(0, False, 0), (45, False, 4)], b'AAA\0BBB\0', b'BBB-0:00:45')
+    out.append(Zone('syn/transition-at-10s-offset-45s', T.write(z), 'synthetic'))
+    z = T.TZif(2, [-30, 50], [1, 2], [(0, False, 0), (-59, False, 4), (59, False, 8)], b'AAA\0BBB\0CCC\0', b'')
+    out.append(Zone('syn/transitions-around-epoch-offsets-59s', T.write(z), 'synthetic'))
     # only type, no transitions
     z = T.TZif(2, [], [], [(3600, False, 0)], b'CET\0', b'CET-1')
     out.append(Zone('syn/notrans', T.write(z), 'synthetic'))
